@@ -1,5 +1,234 @@
 package main
 
-import "verifharness/lib"
+// End to end: the CLI built from the tree under check queries a table served by harness/cmd/c26/testplugin (installed
+// into a scratch OCTOSQL_PLUGIN_DIR; every predicate is pushed down, crosses the JSON transport and is applied by the
+// plugin; rows come back as proto records over gRPC) and the same data as a JSON file; the result rows must agree.
 
-func e2eCases(cf *lib.CaseFile, rng *lib.Rng, f lib.Flags) {}
+import (
+	"bytes"
+	"encoding/json"
+	"fmt"
+	"os"
+	"os/exec"
+	"path/filepath"
+	"sort"
+	"strings"
+	"time"
+
+	"github.com/cube2222/octosql/octosql"
+	"github.com/cube2222/octosql/physical"
+
+	"verifharness/lib"
+)
+
+func goBuild(dir, out string, args ...string) error {
+	cmd := exec.Command("go", append(append([]string{"build"}, args...), "-o", out, ".")...)
+	cmd.Dir = dir
+	cmd.Env = append(os.Environ(), "GOFLAGS=-mod=mod", "GOPROXY=off", "GOSUMDB=off", "GOTOOLCHAIN=local", "CGO_ENABLED=0")
+	if b, err := cmd.CombinedOutput(); err != nil {
+		return fmt.Errorf("go build in %s: %v\n%s", dir, err, b)
+	}
+	return nil
+}
+
+type e2eTable struct {
+	Fields    []physical.SchemaField
+	TimeField int
+	Rows      [][]octosql.Value
+}
+
+var e2eStrings = []string{"a", "ab", "AB", "b", "abc", "", "é"}
+var e2eFloats = []float64{0.5, 1.5, 2.25, -1.5}
+
+func genE2ETable(r *lib.Rng) (e2eTable, []string) {
+	t := e2eTable{TimeField: -1, Fields: []physical.SchemaField{
+		{Name: "a", Type: octosql.Int}, {Name: "s", Type: octosql.String}, {Name: "f", Type: octosql.Float},
+		{Name: "ok", Type: octosql.Boolean}, {Name: "n", Type: octosql.TypeSum(octosql.Int, octosql.Null)}}}
+	var lines []string
+	n := 6 + r.Intn(6)
+	for i := 0; i < n; i++ {
+		a := int64(r.Intn(5)) - 1
+		s := e2eStrings[r.Intn(len(e2eStrings))]
+		fl := e2eFloats[r.Intn(len(e2eFloats))]
+		ok := r.Bool()
+		nv, njs := octosql.NewNull(), "null"
+		if i == 0 || r.Chance(2, 3) { // the first line fixes the JSON source's idea of the column: make it an int
+			k := int64(r.Intn(3))
+			nv, njs = octosql.NewInt(k), fmt.Sprint(k)
+		}
+		if i == 1 {
+			nv, njs = octosql.NewNull(), "null"
+		}
+		t.Rows = append(t.Rows, []octosql.Value{octosql.NewInt(a), octosql.NewString(s), octosql.NewFloat(fl), octosql.NewBoolean(ok), nv})
+		sj, _ := json.Marshal(s)
+		lines = append(lines, fmt.Sprintf(`{"a": %d, "s": %s, "f": %v, "ok": %v, "n": %s}`, a, sj, fl, ok, njs))
+	}
+	return t, lines
+}
+
+func genAtom(r *lib.Rng) string {
+	k := r.Intn(4)
+	switch r.Intn(16) {
+	case 0:
+		return fmt.Sprintf("t.a IN (%d, %d, %d)", k-1, k, k+2)
+	case 1:
+		return fmt.Sprintf("t.a NOT IN (%d, %d)", k-1, k)
+	case 2:
+		return fmt.Sprintf("t.s IN ('%s', '%s')", e2eStrings[r.Intn(5)], e2eStrings[r.Intn(5)])
+	case 3:
+		return fmt.Sprintf("t.s NOT IN ('%s', '%s')", e2eStrings[r.Intn(5)], e2eStrings[r.Intn(5)])
+	case 4:
+		return fmt.Sprintf("t.a %s %d", []string{"<", "<=", ">", ">=", "=", "!="}[r.Intn(6)], k)
+	case 5:
+		return fmt.Sprintf("t.a + 1 %s %d", []string{"<", ">=", "="}[r.Intn(3)], k)
+	case 6:
+		return fmt.Sprintf("t.a * 2 > %d", k)
+	case 7:
+		return fmt.Sprintf("len(t.s) %s %d", []string{"<", ">", "="}[r.Intn(3)], k)
+	case 8:
+		return fmt.Sprintf("t.s LIKE '%s'", []string{"a%", "%b", "_b%", "%"}[r.Intn(4)])
+	case 9:
+		return fmt.Sprintf("upper(t.s) = '%s'", []string{"AB", "A", "ABC"}[r.Intn(3)])
+	case 10:
+		return []string{"t.n IS NULL", "t.n IS NOT NULL"}[r.Intn(2)]
+	case 11:
+		return []string{"t.ok = true", "NOT t.ok", "t.ok"}[r.Intn(3)]
+	case 12:
+		return fmt.Sprintf("t.f %s %d.0", []string{"<", ">"}[r.Intn(2)], k)
+	case 13:
+		return fmt.Sprintf("abs(t.a) = %d", k)
+	case 14:
+		return fmt.Sprintf("t.n IN (%d, %d)", k, k+1)
+	default:
+		return fmt.Sprintf("t.a - 1 < %d", k)
+	}
+}
+
+func genPredicate(r *lib.Rng) string {
+	switch r.Intn(4) {
+	case 0:
+		return genAtom(r) + " AND " + genAtom(r)
+	case 1:
+		return "(" + genAtom(r) + " OR " + genAtom(r) + ")"
+	default:
+		return genAtom(r)
+	}
+}
+
+type cliResult struct {
+	Exit int
+	Rows []string
+	Err  string
+}
+
+func runCLI(bin string, env []string, query string) cliResult {
+	cmd := exec.Command(bin, query, "-o", "json")
+	cmd.Env = env
+	var out, errb bytes.Buffer
+	cmd.Stdout, cmd.Stderr = &out, &errb
+	done := make(chan error, 1)
+	if err := cmd.Start(); err != nil {
+		return cliResult{Exit: -1, Err: err.Error()}
+	}
+	go func() { done <- cmd.Wait() }()
+	select {
+	case err := <-done:
+		res := cliResult{}
+		if err != nil {
+			res.Exit = 1
+			if ee, ok := err.(*exec.ExitError); ok {
+				res.Exit = ee.ExitCode()
+			}
+			res.Err = strings.TrimSpace(errb.String())
+			if len(res.Err) > 600 {
+				res.Err = res.Err[len(res.Err)-600:]
+			}
+		}
+		for _, l := range strings.Split(out.String(), "\n") {
+			l = strings.TrimSpace(l)
+			if l == "" {
+				continue
+			}
+			var m map[string]interface{}
+			if json.Unmarshal([]byte(l), &m) == nil {
+				b, _ := json.Marshal(m) // canonical key order
+				l = string(b)
+			}
+			res.Rows = append(res.Rows, l)
+		}
+		sort.Strings(res.Rows)
+		return res
+	case <-time.After(60 * time.Second):
+		cmd.Process.Kill()
+		return cliResult{Exit: -2, Err: "timeout"}
+	}
+}
+
+func e2eCases(cf *lib.CaseFile, rng *lib.Rng, f lib.Flags) {
+	if os.Getenv("VERIF_C26_NO_E2E") != "" {
+		cf.Side.Notes = append(cf.Side.Notes, "end-to-end part skipped (VERIF_C26_NO_E2E)")
+		return
+	}
+	verif := os.Getenv("VERIF_DIR")
+	if verif == "" {
+		verif = "/verif"
+	}
+	binDir := filepath.Join(verif, ".build", "C26", "bin")
+	os.MkdirAll(binDir, 0o755)
+	cli, plug := filepath.Join(binDir, "octosql"), filepath.Join(binDir, "octosql-plugin-vt")
+	fail := func(what string) {
+		idx := cf.Add("KQuery false", map[string]interface{}{"kind": "e2e_setup", "error": what}, false)
+		cf.Violation(idx, "end-to-end setup failed: "+what, "")
+	}
+	if err := goBuild(repoDir(), cli); err != nil {
+		fail(err.Error())
+		return
+	}
+	if err := goBuild(filepath.Join(verif, "harness", "cmd", "c26", "testplugin"), plug, "-modfile="+filepath.Join(verif, ".build", "C26", "go.mod")); err != nil {
+		fail(err.Error())
+		return
+	}
+	home, err := os.MkdirTemp("", "c26e")
+	if err != nil {
+		fail(err.Error())
+		return
+	}
+	defer os.RemoveAll(home)
+	inst := filepath.Join(home, "p", "core", "octosql-plugin-vt", "0.1.0")
+	os.MkdirAll(inst, 0o755)
+	if err := os.Symlink(plug, filepath.Join(inst, "octosql-plugin-vt")); err != nil {
+		fail(err.Error())
+		return
+	}
+	dataPath, jsonPath := filepath.Join(home, "data.json"), filepath.Join(home, "t.json")
+	env := append(os.Environ(), "HOME="+home, "XDG_CONFIG_HOME="+filepath.Join(home, "cfg"), "XDG_CACHE_HOME="+filepath.Join(home, "cache"), "XDG_DATA_HOME="+filepath.Join(home, "data"),
+		"OCTOSQL_NO_TELEMETRY=1", "OCTOSQL_PLUGIN_DIR="+filepath.Join(home, "p"), "OCTOSQL_PLUGIN_TMP_DIR="+filepath.Join(home, "s"), "VERIF_C26_DATA="+dataPath)
+
+	n := f.Cases(14, 120)
+	var table e2eTable
+	var lines []string
+	for i := 0; i < n; i++ {
+		r := rng.Fork()
+		if i%7 == 0 {
+			table, lines = genE2ETable(r)
+			b, _ := json.Marshal(map[string]interface{}{"Tables": map[string]e2eTable{"t": table}})
+			os.WriteFile(dataPath, b, 0o644)
+			os.WriteFile(jsonPath, []byte(strings.Join(lines, "\n")+"\n"), 0o644)
+		}
+		pred := genPredicate(r)
+		if i%7 == 0 {
+			pred = "t.a IN (0, 1, 2)" // the tuple variant of "in" at least once per table
+		}
+		qPlugin := "SELECT t.a, t.s, t.f, t.ok, t.n FROM vt.t t WHERE " + pred
+		qNative := "SELECT t.a, t.s, t.f, t.ok, t.n FROM " + jsonPath + " t WHERE " + pred
+		pr, nr := runCLI(cli, env, qPlugin), runCLI(cli, env, qNative)
+		same := pr.Exit == nr.Exit && strings.Join(pr.Rows, "\n") == strings.Join(nr.Rows, "\n")
+		idx := cf.Add("KQuery "+lib.CoqBool(same), map[string]interface{}{"kind": "e2e_query", "predicate": pred, "table": lines,
+			"plugin": pr, "native": nr}, len(nr.Rows) > 0 && len(nr.Rows) < len(lines))
+		_ = idx
+		cf.Count("e2e_query")
+		if nr.Exit != 0 {
+			cf.Count("e2e_native_query_failed")
+		}
+	}
+}
